@@ -1369,7 +1369,8 @@ Lemma obj_example_never :
 Proof. vm_compute. repeat split. Qed.
 
 (* ====================================================================== [obj_frag]: EXACTNESS of the merge
-   (both directions), never-soundness, closure, merge_all, permutation equivalence, [Valid] corollaries *)
+   (both directions), never-soundness, closure, merge_all, permutation equivalence, [Valid] corollaries;
+   [wa] = arrays in the fragment (single `items`, min/maxItems, uniqueItems) *)
 
 
 
@@ -1634,6 +1635,31 @@ Proof.
       inversion El; subst. apply Hcons. reflexivity.
 Qed.
 
+(* ---- the instances of the theorems *)
+Lemma inst_ok_obj wa kvs :
+  inst_ok wa (JObj kvs) = true ->
+  uniq_keys kvs = true /\ forall k x, In (k, x) kvs -> inst_ok wa x = true.
+Proof.
+  unfold inst_ok. intros H. apply andb_true_iff in H. destruct H as [W N].
+  destruct (wf_json_obj _ W) as [U Wx]. split; [exact U|].
+  intros k x Hin. rewrite (Wx _ _ Hin). simpl.
+  destruct wa; [|reflexivity]. simpl in *. rewrite forallb_forall in N. apply (N (k, x) Hin).
+Qed.
+
+Lemma inst_ok_arr wa l :
+  inst_ok wa (JArr l) = true ->
+  (wa = true -> l <> []) /\ forall x, In x l -> inst_ok wa x = true.
+Proof.
+  unfold inst_ok. intros H. apply andb_true_iff in H. destruct H as [W N]. split.
+  - intros -> ->. simpl in N. discriminate N.
+  - intros x Hin. simpl in W. rewrite forallb_forall in W. rewrite (W _ Hin). simpl.
+    destruct wa; [|reflexivity]. simpl in *. destruct l as [|y r]; [destruct Hin|].
+    rewrite forallb_forall in N. apply N. exact Hin.
+Qed.
+
+Lemma inst_ok_wf wa v : inst_ok wa v = true -> wf_json v = true.
+Proof. unfold inst_ok. intros H. apply andb_true_iff in H. apply H. Qed.
+
 
 Lemma uniq_keys_map {A B} (f : A -> B) (l : list (ustring * A)) :
   uniq_keys (map (fun kv => (fst kv, f (snd kv))) l) = uniq_keys l.
@@ -1688,19 +1714,20 @@ Section ObjExact.
   Variable o : vopts.
   Variable DV : defs.
   Variable n : nat.
+  Variable wa : bool.
   Variable tx : itype.
   Local Notation V := (Valid.validx re_match fmt_ok o DV n).
 
   (* exactness invariant of a merge result *)
   Definition ex_ok (r : mres schema) (a b : schema) : Prop :=
     match r with
-    | MOk m => obj_frag tx m = true /\ forall v, wf_json v = true -> V m v = V a v && V b v
-    | MNever => forall v, wf_json v = true -> V a v && V b v = false
+    | MOk m => obj_frag wa tx m = true /\ forall v, inst_ok wa v = true -> V m v = V a v && V b v
+    | MNever => forall v, inst_ok wa v = true -> V a v && V b v = false
     | _ => True
     end.
 
   Variable mrg : schema -> schema -> mres schema.
-  Hypothesis Hm : forall x y, obj_frag tx x = true -> obj_frag tx y = true -> ex_ok (mrg x y) x y.
+  Hypothesis Hm : forall x y, obj_frag wa tx x = true -> obj_frag wa tx y = true -> ex_ok (mrg x y) x y.
 
   Local Notation apS := (apsem re_match fmt_ok o DV n).
 
@@ -1716,7 +1743,7 @@ Section ObjExact.
   Qed.
 
   Lemma filter_prop_frag ap prop :
-    opt_all (obj_frag tx) ap = true -> obj_frag tx prop = true -> obj_frag tx (filter_prop ap prop) = true.
+    opt_all (obj_frag wa tx) ap = true -> obj_frag wa tx prop = true -> obj_frag wa tx (filter_prop ap prop) = true.
   Proof.
     destruct ap as [[[|]|ty fmt enum cst nv sv ik items ai mni mxi uq props req ap mnp mxp allo anyo oneo no ref d t]|];
       intros A P; try exact P; try reflexivity.
@@ -1726,10 +1753,10 @@ Section ObjExact.
   Qed.
 
   Lemma merge_ap_exact ap ap' :
-    opt_all (obj_frag tx) ap = true -> opt_all (obj_frag tx) ap' = true ->
+    opt_all (obj_frag wa tx) ap = true -> opt_all (obj_frag wa tx) ap' = true ->
     match merge_ap mrg ap ap' with
-    | MOk apm => opt_all (obj_frag tx) apm = true
-                 /\ forall x, wf_json x = true -> apS apm x = apS ap x && apS ap' x
+    | MOk apm => opt_all (obj_frag wa tx) apm = true
+                 /\ forall x, inst_ok wa x = true -> apS apm x = apS ap x && apS ap' x
     | MNever => False
     | _ => True
     end.
@@ -1747,17 +1774,17 @@ Section ObjExact.
 
   (* ---- the entries of the property loop *)
   Variables (props props' : list (ustring * schema)) (ap ap' : option schema).
-  Hypothesis Fa : forallb (fun kv => obj_frag tx (snd kv)) props = true.
-  Hypothesis Fb : forallb (fun kv => obj_frag tx (snd kv)) props' = true.
-  Hypothesis Aa : opt_all (obj_frag tx) ap = true.
-  Hypothesis Ab : opt_all (obj_frag tx) ap' = true.
+  Hypothesis Fa : forallb (fun kv => obj_frag wa tx (snd kv)) props = true.
+  Hypothesis Fb : forallb (fun kv => obj_frag wa tx (snd kv)) props' = true.
+  Hypothesis Aa : opt_all (obj_frag wa tx) ap = true.
+  Hypothesis Ab : opt_all (obj_frag wa tx) ap' = true.
   Hypothesis Ua : uniq_keys props = true.
   Hypothesis Ub : uniq_keys props' = true.
 
   Local Notation ps := (from_a mrg props props' ap' ++ from_b props props' ap).
 
   Lemma frag_in (l : list (ustring * schema)) k s :
-    forallb (fun kv => obj_frag tx (snd kv)) l = true -> In (k, s) l -> obj_frag tx s = true.
+    forallb (fun kv => obj_frag wa tx (snd kv)) l = true -> In (k, s) l -> obj_frag wa tx s = true.
   Proof. intros H Hin. rewrite forallb_forall in H. apply (H (k, s) Hin). Qed.
 
   Lemma ps_uniq : uniq_keys ps = true.
@@ -1780,8 +1807,8 @@ Section ObjExact.
   (* what the resolved schema of an entry means, for every (well-formed) member value *)
   Lemma entry_exact k s :
     In (k, MOk s) ps ->
-    obj_frag tx s = true /\
-    forall x, wf_json x = true -> V s x = keysem V props ap k x && keysem V props' ap' k x.
+    obj_frag wa tx s = true /\
+    forall x, inst_ok wa x = true -> V s x = keysem V props ap k x && keysem V props' ap' k x.
   Proof.
     intros Hin. apply in_app_iff in Hin. unfold keysem. destruct Hin as [H|H].
     - apply in_from_a in H. destruct H as [sa [Hina E]].
@@ -1819,8 +1846,8 @@ Section ObjExact.
   (* key by key, the merged object group means the conjunction *)
   Lemma merged_keysem req0 apm pm k x :
     props_loop req0 apm ps = MOk pm ->
-    (forall z, wf_json z = true -> apS apm z = apS ap z && apS ap' z) ->
-    wf_json x = true ->
+    (forall z, inst_ok wa z = true -> apS apm z = apS ap z && apS ap' z) ->
+    inst_ok wa x = true ->
     keysem V pm apm k x = keysem V props ap k x && keysem V props' ap' k x.
   Proof.
     intros El Hap Wx.
@@ -1895,32 +1922,33 @@ Section ObjGroupExact.
   Variable o : vopts.
   Variable DV : defs.
   Variable n : nat.
+  Variable wa : bool.
   Variable tx : itype.
   Local Notation V := (Valid.validx re_match fmt_ok o DV n).
-  Local Notation exok := (ex_ok re_match fmt_ok o DV n tx).
+  Local Notation exok := (ex_ok re_match fmt_ok o DV n wa tx).
 
   Variable mrg : schema -> schema -> mres schema.
-  Hypothesis Hm : forall x y, obj_frag tx x = true -> obj_frag tx y = true -> exok (mrg x y) x y.
+  Hypothesis Hm : forall x y, obj_frag wa tx x = true -> obj_frag wa tx y = true -> exok (mrg x y) x y.
 
   Definition obool (props : list (ustring * schema)) (req : list ustring) (ap : option schema)
              (mnp mxp : option N) (kvs : list (ustring * json)) : bool :=
     valid_obj_local req mnp mxp (JObj kvs) && valid_obj V props ap kvs.
 
   Lemma merge_obj_exact props req ap mnp mxp props' req' ap' mnp' mxp' :
-    forallb (fun kv => obj_frag tx (snd kv)) props = true ->
-    forallb (fun kv => obj_frag tx (snd kv)) props' = true ->
-    opt_all (obj_frag tx) ap = true -> opt_all (obj_frag tx) ap' = true ->
+    forallb (fun kv => obj_frag wa tx (snd kv)) props = true ->
+    forallb (fun kv => obj_frag wa tx (snd kv)) props' = true ->
+    opt_all (obj_frag wa tx) ap = true -> opt_all (obj_frag wa tx) ap' = true ->
     uniq_keys props = true -> uniq_keys props' = true ->
     match merge_obj mrg (props, req, ap, mnp, mxp) (props', req', ap', mnp', mxp') with
     | MOk (pm, rm, apm, mnm, mxm) =>
-        forallb (fun kv => obj_frag tx (snd kv)) pm = true /\ opt_all (obj_frag tx) apm = true
+        forallb (fun kv => obj_frag wa tx (snd kv)) pm = true /\ opt_all (obj_frag wa tx) apm = true
         /\ uniq_keys pm = true
         /\ (obj_absent props req ap mnp mxp = true -> obj_absent props' req' ap' mnp' mxp' = true ->
             obj_absent pm rm apm mnm mxm = true)
-        /\ forall kvs, wf_json (JObj kvs) = true ->
+        /\ forall kvs, inst_ok wa (JObj kvs) = true ->
                        obool pm rm apm mnm mxm kvs = obool props req ap mnp mxp kvs && obool props' req' ap' mnp' mxp' kvs
     | MNever => obj_absent props req ap mnp mxp = false /\ obj_absent props' req' ap' mnp' mxp' = false
-                /\ forall kvs, wf_json (JObj kvs) = true ->
+                /\ forall kvs, inst_ok wa (JObj kvs) = true ->
                                obool props req ap mnp mxp kvs && obool props' req' ap' mnp' mxp' kvs = false
     | _ => True
     end.
@@ -1935,16 +1963,16 @@ Section ObjGroupExact.
     { destruct (obj_absent_shape _ _ _ _ _ Ob) as (-> & -> & -> & -> & ->).
       split; [exact Fa | split; [exact Aa | split; [exact Ua | split; [intros C; discriminate C|]]]].
       intros kvs _. unfold obool at 3. unfold valid_obj_local, valid_obj. simpl. rewrite andb_true_r. reflexivity. }
-    pose proof (merge_ap_exact re_match fmt_ok o DV n tx mrg Hm ap ap' Aa Ab) as Hap.
+    pose proof (merge_ap_exact re_match fmt_ok o DV n wa tx mrg Hm ap ap' Aa Ab) as Hap.
     destruct (merge_ap mrg ap ap') as [apm| | |]; cbn [mbind]; try exact I; [|destruct Hap].
     destruct Hap as (Am & Sap).
     set (ps := from_a mrg props props' ap' ++ from_b props props' ap).
     pose proof (ps_uniq mrg props props' ap ap' Ua Ub) as Ups. fold ps in Ups.
     (* validity of both sides, key by key *)
-    assert (Kboth : forall kvs, wf_json (JObj kvs) = true ->
+    assert (Kboth : forall kvs, inst_ok wa (JObj kvs) = true ->
               (valid_obj V props ap kvs = true /\ valid_obj V props' ap' kvs = true <->
                forall k x, In (k, x) kvs -> keysem V props ap k x && keysem V props' ap' k x = true)).
-    { intros kvs W. destruct (wf_json_obj _ W) as [Uk _].
+    { intros kvs W. destruct (inst_ok_obj wa _ W) as [Uk _].
       rewrite (valid_obj_keywise V props ap kvs Ua Uk), (valid_obj_keywise V props' ap' kvs Ub Uk).
       split.
       - intros [H1 H2] k x Hin. rewrite (H1 _ _ Hin), (H2 _ _ Hin). reflexivity.
@@ -1966,12 +1994,12 @@ Section ObjGroupExact.
         * apply choose_min_sem; assumption.
       + split; [|split; [|split; [|split]]].
         * apply forallb_forall. intros [k s] Hin. simpl.
-          apply (entry_exact re_match fmt_ok o DV n tx mrg Hm props props' ap ap' Fa Fb Aa Ab Ua Ub k s).
+          apply (entry_exact re_match fmt_ok o DV n wa tx mrg Hm props props' ap ap' Fa Fb Aa Ab Ua Ub k s).
           apply P1. exact Hin.
         * exact Am.
         * exact Upm.
         * intros C. discriminate C.
-        * intros kvs W. destruct (wf_json_obj _ W) as [Uk Wx].
+        * intros kvs W. destruct (inst_ok_obj wa _ W) as [Uk Wx].
           apply eq_true_iff_eq. unfold obool.
           rewrite !andb_true_iff.
           rewrite valid_obj_local_merge.
@@ -1979,13 +2007,13 @@ Section ObjGroupExact.
           assert (Hkey : (forall k x, In (k, x) kvs -> keysem V pm apm k x = true) <->
                          (valid_obj V props ap kvs = true /\ valid_obj V props' ap' kvs = true)).
           { rewrite (Kboth kvs W). split; intros H k x Hin.
-            - rewrite <- (merged_keysem re_match fmt_ok o DV n tx mrg Hm props props' ap ap' Fa Fb Aa Ab Ua Ub
+            - rewrite <- (merged_keysem re_match fmt_ok o DV n wa tx mrg Hm props props' ap ap' Fa Fb Aa Ab Ua Ub
                             (union_req req req') apm pm k x El Sap (Wx _ _ Hin)). apply H. exact Hin.
-            - rewrite (merged_keysem re_match fmt_ok o DV n tx mrg Hm props props' ap ap' Fa Fb Aa Ab Ua Ub
+            - rewrite (merged_keysem re_match fmt_ok o DV n wa tx mrg Hm props props' ap ap' Fa Fb Aa Ab Ua Ub
                          (union_req req req') apm pm k x El Sap (Wx _ _ Hin)). apply H. exact Hin. }
           rewrite Hkey. tauto.
     - split; [reflexivity|split; [reflexivity|]].
-      intros kvs W. destruct (wf_json_obj _ W) as [Uk Wx].
+      intros kvs W. destruct (inst_ok_obj wa _ W) as [Uk Wx].
       apply not_true_is_false. intros H.
       unfold obool in H. rewrite !andb_true_iff in H. destruct H as [[La Va] [Lb Vb]].
       destruct (props_loop_never _ _ _ El) as [[k [Hin Hreq]]|[k Hin]].
@@ -1997,12 +2025,124 @@ Section ObjGroupExact.
         assert (Hk : has_key k kvs = true).
         { destruct Hreq as [H|H]; [apply La1; exact H | apply filter_In in H; apply Lb1; apply H]. }
         apply has_key_iff in Hk. destruct Hk as [x0 Hx0].
-        destruct (entry_exact re_match fmt_ok o DV n tx mrg Hm props props' ap ap' Fa Fb Aa Ab Ua Ub k _ Hin) as [_ Hs].
+        destruct (entry_exact re_match fmt_ok o DV n wa tx mrg Hm props props' ap ap' Fa Fb Aa Ab Ua Ub k _ Hin) as [_ Hs].
         specialize (Hs x0 (Wx _ _ Hx0)). rewrite valid_SBool in Hs.
         destruct (Kboth kvs W) as [K1 _]. specialize (K1 (conj Va Vb) _ _ Hx0). congruence.
       + eapply entries_no_never; eauto.
   Qed.
 End ObjGroupExact.
+
+
+Definition shape_b (wa : bool) (ik : items_kind) (items : list schema) : bool :=
+  match ik, items with
+  | ItemsAbsent, [] => true
+  | ItemsSingle, [_] => wa
+  | _, _ => false
+  end.
+
+Lemma forallb_andb {A} (f g : A -> bool) l :
+  forallb (fun x => f x && g x) l = forallb f l && forallb g l.
+Proof.
+  induction l as [|x r IH]; simpl; [reflexivity|]. rewrite IH. btauto.
+Qed.
+
+Lemma valid_arr_local_merge mni mxi uq mni' mxi' uq' l :
+  valid_arr_local (choose N.max mni mni') (choose N.min mxi mxi') (uq || uq') (JArr l)
+  = valid_arr_local mni mxi uq (JArr l) && valid_arr_local mni' mxi' uq' (JArr l).
+Proof.
+  apply eq_true_iff_eq. unfold valid_arr_local. rewrite !andb_true_iff, choose_max_iff, choose_min_iff.
+  destruct uq, uq'; simpl; tauto.
+Qed.
+
+Section ArrGroupExact.
+  Variable re_match : ustring -> ustring -> bool.
+  Variable fmt_ok : ustring -> ustring -> bool.
+  Variable o : vopts.
+  Variable DV : defs.
+  Variable n : nat.
+  Variable wa : bool.
+  Variable tx : itype.
+  Local Notation V := (Valid.validx re_match fmt_ok o DV n).
+  Local Notation exok := (ex_ok re_match fmt_ok o DV n wa tx).
+
+  Variable mrg : schema -> schema -> mres schema.
+  Hypothesis Hm : forall x y, obj_frag wa tx x = true -> obj_frag wa tx y = true -> exok (mrg x y) x y.
+
+  Definition abool (ik : items_kind) (items : list schema) (mni mxi : option N) (uq : bool) (l : list json) : bool :=
+    valid_arr_local mni mxi uq (JArr l) && valid_arr V ik items None l.
+
+  Lemma abool_absent ik items mni mxi uq l :
+    shape_b wa ik items = true -> arr_absent ik None mni mxi uq = true -> abool ik items mni mxi uq l = true.
+  Proof.
+    unfold arr_absent, abool. destruct ik, items as [|s [|]], mni, mxi, uq; simpl; intros S H;
+      try discriminate S; try discriminate H. reflexivity.
+  Qed.
+
+  Lemma merge_arr_exact ik items mni mxi uq ik' items' mni' mxi' uq' :
+    shape_b wa ik items = true -> shape_b wa ik' items' = true ->
+    forallb (obj_frag wa tx) items = true -> forallb (obj_frag wa tx) items' = true ->
+    match merge_arr mrg (ik, items, None, mni, mxi, uq) (ik', items', None, mni', mxi', uq') with
+    | MOk (ikm, itm, aim, mnm, mxm, uqm) =>
+        aim = None /\ shape_b wa ikm itm = true /\ forallb (obj_frag wa tx) itm = true
+        /\ (arr_absent ik None mni mxi uq = true -> arr_absent ik' None mni' mxi' uq' = true ->
+            arr_absent ikm None mnm mxm uqm = true)
+        /\ forall l, inst_ok wa (JArr l) = true ->
+                     abool ikm itm mnm mxm uqm l = abool ik items mni mxi uq l && abool ik' items' mni' mxi' uq' l
+    | MNever => arr_absent ik None mni mxi uq = false /\ arr_absent ik' None mni' mxi' uq' = false
+                /\ forall l, inst_ok wa (JArr l) = true ->
+                             abool ik items mni mxi uq l && abool ik' items' mni' mxi' uq' l = false
+    | _ => True
+    end.
+  Proof.
+    intros Sa Sb Fa Fb.
+    unfold merge_arr. cbv beta iota zeta.
+    destruct (arr_absent ik None mni mxi uq) eqn:Oa.
+    { split; [reflexivity | split; [exact Sb | split; [exact Fb | split; [intros _ H; exact H|]]]].
+      intros l _. rewrite (abool_absent ik items mni mxi uq l Sa Oa). reflexivity. }
+    destruct (arr_absent ik' None mni' mxi' uq') eqn:Ob.
+    { split; [reflexivity | split; [exact Sa | split; [exact Fa | split; [intros C; discriminate C|]]]].
+      intros l _. rewrite (abool_absent ik' items' mni' mxi' uq' l Sb Ob), andb_true_r. reflexivity. }
+    destruct (min_gt_max (choose N.max mni mni') (choose N.min mxi mxi')) eqn:Em.
+    { split; [reflexivity | split; [reflexivity|]].
+      intros l _. apply not_true_is_false. intros H. unfold abool in H. rewrite !andb_true_iff in H.
+      destruct H as [[La _] [Lb _]]. unfold valid_arr_local in La, Lb.
+      apply andb_true_iff in La. destruct La as [La _]. apply andb_true_iff in La. destruct La as [La1 La2].
+      apply andb_true_iff in Lb. destruct Lb as [Lb _]. apply andb_true_iff in Lb. destruct Lb as [Lb1 Lb2].
+      rewrite (min_gt_max_false _ _ (N.of_nat (length l))) in Em; [discriminate Em | |].
+      - apply choose_max_sem; assumption.
+      - apply choose_min_sem; assumption. }
+    assert (Hloc : forall l, valid_arr_local (choose N.max mni mni') (choose N.min mxi mxi') (uq || uq') (JArr l)
+                             = valid_arr_local mni mxi uq (JArr l) && valid_arr_local mni' mxi' uq' (JArr l))
+      by (intros l; apply valid_arr_local_merge).
+    destruct ik, items as [|s [|]]; try discriminate Sa; destruct ik', items' as [|s' [|]]; try discriminate Sb.
+    - (* absent / absent *)
+      split; [reflexivity | split; [reflexivity | split; [reflexivity | split; [intros C; discriminate C|]]]].
+      intros l _. unfold abool. rewrite Hloc. simpl. btauto.
+    - (* absent / single *)
+      split; [reflexivity | split; [exact Sb | split; [exact Fb | split; [intros C; discriminate C|]]]].
+      intros l _. unfold abool. rewrite Hloc. simpl. btauto.
+    - (* single / absent *)
+      split; [reflexivity | split; [exact Sa | split; [exact Fa | split; [intros C; discriminate C|]]]].
+      intros l _. unfold abool. rewrite Hloc. simpl. btauto.
+    - (* single / single *)
+      simpl in Fa, Fb. rewrite andb_true_r in Fa, Fb.
+      pose proof (Hm s s' Fa Fb) as H. unfold ex_ok in H.
+      destruct (mrg s s') as [m| | |]; cbn [mbind]; try exact I.
+      + destruct H as [Fm Sm].
+        split; [reflexivity | split; [exact Sa | split; [simpl; rewrite Fm; reflexivity | split; [intros C; discriminate C|]]]].
+        intros l W. destruct (inst_ok_arr wa l W) as [_ Wx].
+        unfold abool. rewrite Hloc. simpl.
+        assert (E : forallb (fun x => V m x) l = forallb (fun x => V s x) l && forallb (fun x => V s' x) l).
+        { rewrite <- forallb_andb. apply forallb_ext_in. intros x Hin. apply Sm. apply Wx. exact Hin. }
+        rewrite E. btauto.
+      + split; [reflexivity | split; [reflexivity|]].
+        intros l W. destruct (inst_ok_arr wa l W) as [Hne Wx].
+        simpl in Sa. destruct l as [|x r]; [exfalso; apply (Hne Sa); reflexivity|].
+        unfold abool. simpl valid_arr.
+        pose proof (H x (Wx x (or_introl eq_refl))) as Hx.
+        destruct (V s x), (V s' x); simpl in Hx; try discriminate Hx; simpl; rewrite ?andb_false_r; reflexivity.
+  Qed.
+End ArrGroupExact.
 
 
 Lemma numv_none_valid nv v : numv_is_none nv = true -> valid_num nv v = true.
@@ -2054,48 +2194,47 @@ Section ObjWhole.
   Variable o : vopts.
   Variable DV : defs.
   Variable n : nat.
+  Variable wa : bool.
   Variable tx : itype.
   Hypothesis Htx : tx_ok tx.
   Variable D : defs.
   Local Notation V := (Valid.validx re_match fmt_ok o DV n).
-  Local Notation exok := (ex_ok re_match fmt_ok o DV n tx).
+  Local Notation exok := (ex_ok re_match fmt_ok o DV n wa tx).
 
-  Lemma V_frag ty enum cst nv sv items props req ap mnp mxp allo d t v :
+  Lemma V_frag ty enum cst nv sv ik items mni mxi uq props req ap mnp mxp allo d t v :
     numv_is_none nv = true -> strv_is_none sv = true ->
-    V (SObj ty None enum cst nv sv ItemsAbsent items None None None false props req ap mnp mxp allo
+    V (SObj ty None enum cst nv sv ik items None mni mxi uq props req ap mnp mxp allo
             None None None None d t) v
-    = valid_type o ty v && valid_enum enum v && valid_const cst v && valid_obj_local req mnp mxp v
+    = valid_type o ty v && valid_enum enum v && valid_const cst v
+      && valid_arr_local mni mxi uq v && valid_obj_local req mnp mxp v
+      && match v with JArr l => valid_arr V ik items None l | _ => true end
       && match v with JObj kvs => valid_obj V props ap kvs | _ => true end
       && opt_all (forallb (fun s' => V s' v)) allo.
   Proof.
     intros Hn Hs.
-    rewrite validx_SObj. cbv zeta. unfold combine_ref, here_v, valid_local, valid_format, valid_arr_local.
+    rewrite validx_SObj. cbv zeta. unfold combine_ref, here_v, valid_local, valid_format.
     rewrite (numv_none_valid nv v Hn), (strv_none_valid re_match sv v Hs).
     destruct v; simpl; rewrite ?andb_true_r; reflexivity.
   Qed.
 
   Lemma frag_shape ty fmt enum cst nv sv ik items ai mni mxi uq props req ap mnp mxp allo anyo oneo no ref d t :
-    obj_frag tx (SObj ty fmt enum cst nv sv ik items ai mni mxi uq props req ap mnp mxp allo anyo oneo no ref d t) = true ->
-    fmt = None /\ ik = ItemsAbsent /\ items = [] /\ ai = None /\ mni = None /\ mxi = None /\ uq = false
-    /\ anyo = None /\ oneo = None /\ no = None /\ ref = None
+    obj_frag wa tx (SObj ty fmt enum cst nv sv ik items ai mni mxi uq props req ap mnp mxp allo anyo oneo no ref d t) = true ->
+    fmt = None /\ ai = None /\ anyo = None /\ oneo = None /\ no = None /\ ref = None
     /\ notype tx ty = true /\ simple_enum enum = true /\ opt_all simple_json cst = true
     /\ numv_is_none nv = true /\ strv_is_none sv = true
+    /\ shape_b wa ik items = true /\ (arr_absent ik None mni mxi uq || (wa && all_array ty) = true)
+    /\ forallb (obj_frag wa tx) items = true
     /\ (obj_absent props req ap mnp mxp || all_object ty = true)
     /\ uniq_keys props = true
-    /\ forallb (fun kv => obj_frag tx (snd kv)) props = true /\ opt_all (obj_frag tx) ap = true
-    /\ opt_all (forallb (obj_frag tx)) allo = true.
+    /\ forallb (fun kv => obj_frag wa tx (snd kv)) props = true /\ opt_all (obj_frag wa tx) ap = true
+    /\ opt_all (forallb (obj_frag wa tx)) allo = true.
   Proof.
-    intros H. cbn [obj_frag] in H. unfold arr_absent in H.
+    intros H. cbn [obj_frag] in H. unfold arr_cond in H.
     repeat match goal with
            | Hx : _ && _ = true |- _ => apply andb_true_iff in Hx; destruct Hx
            end.
     destruct fmt; [simpl in *; congruence|].
-    destruct ik; try (simpl in *; congruence).
-    destruct items; [|simpl in *; congruence].
     destruct ai; [simpl in *; congruence|].
-    destruct mni; [simpl in *; congruence|].
-    destruct mxi; [simpl in *; congruence|].
-    destruct uq; [simpl in *; congruence|].
     destruct anyo; [simpl in *; congruence|].
     destruct oneo; [simpl in *; congruence|].
     destruct no; [simpl in *; congruence|].
@@ -2103,7 +2242,23 @@ Section ObjWhole.
     repeat split; assumption.
   Qed.
 
-  Lemma frag_into_obj s : obj_frag tx s = true -> obj_frag tx (into_obj s) = true.
+  Lemma frag_build ty enum cst nv sv ik items mni mxi uq props req ap mnp mxp allo d t :
+    notype tx ty = true -> simple_enum enum = true -> opt_all simple_json cst = true ->
+    numv_is_none nv = true -> strv_is_none sv = true ->
+    shape_b wa ik items = true -> (arr_absent ik None mni mxi uq || (wa && all_array ty) = true) ->
+    forallb (obj_frag wa tx) items = true ->
+    (obj_absent props req ap mnp mxp || all_object ty = true) -> uniq_keys props = true ->
+    forallb (fun kv => obj_frag wa tx (snd kv)) props = true -> opt_all (obj_frag wa tx) ap = true ->
+    opt_all (forallb (obj_frag wa tx)) allo = true ->
+    obj_frag wa tx (SObj ty None enum cst nv sv ik items None mni mxi uq props req ap mnp mxp allo
+                         None None None None d t) = true.
+  Proof.
+    intros H1 H2 H3 H4 H5 H6 H7 H8 H9 H10 H11 H12 H13.
+    cbn [obj_frag]. unfold arr_cond. fold (shape_b wa ik items).
+    rewrite H1, H2, H3, H4, H5, H6, H7, H8, H9, H10, H11, H12, H13. reflexivity.
+  Qed.
+
+  Lemma frag_into_obj s : obj_frag wa tx s = true -> obj_frag wa tx (into_obj s) = true.
   Proof. destruct s as [[|]|]; intros H; exact H. Qed.
 
   Lemma V_into_obj s v : V (into_obj s) v = V s v.
@@ -2116,17 +2271,17 @@ Section ObjWhole.
   (* ---- folding the allOf members in *)
   Section Fold.
     Variable mrg : schema -> schema -> mres schema.
-    Hypothesis Hm : forall x y, obj_frag tx x = true -> obj_frag tx y = true -> exok (mrg x y) x y.
+    Hypothesis Hm : forall x y, obj_frag wa tx x = true -> obj_frag wa tx y = true -> exok (mrg x y) x y.
 
     Definition acc_ex (r : mres schema) (F : json -> bool) : Prop :=
       match r with
-      | MOk m => obj_frag tx m = true /\ forall v, wf_json v = true -> V m v = F v
-      | MNever => forall v, wf_json v = true -> F v = false
+      | MOk m => obj_frag wa tx m = true /\ forall v, inst_ok wa v = true -> V m v = F v
+      | MNever => forall v, inst_ok wa v = true -> F v = false
       | _ => True
       end.
 
     Lemma fold_exact l : forall acc F,
-      acc_ex acc F -> forallb (obj_frag tx) l = true ->
+      acc_ex acc F -> forallb (obj_frag wa tx) l = true ->
       acc_ex (fold_left (fun a other => mbind a (fun s => mrg s other)) l acc)
              (fun v => F v && forallb (fun s' => V s' v) l).
     Proof.
@@ -2151,7 +2306,7 @@ Section ObjWhole.
     Qed.
 
     Lemma with_allof_exact so allo F :
-      acc_ex (MOk so) F -> opt_all (forallb (obj_frag tx)) allo = true ->
+      acc_ex (MOk so) F -> opt_all (forallb (obj_frag wa tx)) allo = true ->
       acc_ex (with_allof mrg so allo) (fun v => F v && opt_all (forallb (fun s' => V s' v)) allo).
     Proof.
       intros Hso Hl. destruct allo as [l|]; simpl.
@@ -2165,28 +2320,25 @@ Section ObjWhole.
   End Fold.
 
   (* ---- the enum filter keeps the instance set *)
-  Lemma enum_filter_frag m : obj_frag tx m = true -> obj_frag tx (enum_filter m) = true.
+  Lemma enum_filter_frag m : obj_frag wa tx m = true -> obj_frag wa tx (enum_filter m) = true.
   Proof.
     destruct m as [b|ty fmt enum cst nv sv ik items ai mni mxi uq props req ap mnp mxp allo anyo oneo no ref d t];
       [intros H; exact H|].
     destruct enum as [ev|]; [|intros H; exact H].
     intros H. pose proof (frag_shape _ _ _ _ _ _ _ _ _ _ _ _ _ _ _ _ _ _ _ _ _ _ _ _ H) as S.
-    destruct S as (-> & -> & -> & -> & -> & -> & -> & -> & -> & -> & -> & Nt & Se & Sc & Hn & Hs & G & U & Fp & Fap & Fal).
-    cbn [enum_filter obj_frag]. unfold arr_absent. rewrite Nt, Sc, Hn, Hs, G, U, Fp, Fap, Fal.
-    cbn [is_none negb andb].
-    assert (Hse : simple_enum (Some (filter (value_validate ty None cst) ev)) = true).
-    { simpl. apply forallb_forall. intros w Hw. apply filter_In in Hw. simpl in Se. rewrite forallb_forall in Se.
-      apply Se. apply Hw. }
-    rewrite Hse. reflexivity.
+    destruct S as (-> & -> & -> & -> & -> & -> & Nt & Se & Sc & Hn & Hs & Sh & Ga & Fi & G & U & Fp & Fap & Fal).
+    cbn [enum_filter]. apply frag_build; try assumption.
+    simpl. apply forallb_forall. intros w Hw. apply filter_In in Hw. simpl in Se. rewrite forallb_forall in Se.
+    apply Se. apply Hw.
   Qed.
 
-  Lemma enum_filter_exact_V m v : obj_frag tx m = true -> V (enum_filter m) v = V m v.
+  Lemma enum_filter_exact_V m v : obj_frag wa tx m = true -> V (enum_filter m) v = V m v.
   Proof.
     destruct m as [b|ty fmt enum cst nv sv ik items ai mni mxi uq props req ap mnp mxp allo anyo oneo no ref d t];
       [reflexivity|].
     destruct enum as [ev|]; [|reflexivity].
     intros H. pose proof (frag_shape _ _ _ _ _ _ _ _ _ _ _ _ _ _ _ _ _ _ _ _ _ _ _ _ H) as S.
-    destruct S as (-> & -> & -> & -> & -> & -> & -> & -> & -> & -> & -> & Nt & Se & Sc & Hn & Hs & G & U & Fp & Fap & Fal).
+    destruct S as (-> & -> & -> & -> & -> & -> & Nt & Se & Sc & Hn & Hs & Sh & Ga & Fi & G & U & Fp & Fap & Fal).
     cbn [enum_filter]. rewrite !V_frag by assumption.
     destruct (valid_type o ty v) eqn:Tv; [|reflexivity].
     destruct (valid_const cst v) eqn:Cv; [|rewrite !andb_false_r; reflexivity].
@@ -2196,37 +2348,78 @@ Section ObjWhole.
 End ObjWhole.
 
 
+Lemma all_array_arr o ty v : all_array ty = true -> valid_type o ty v = true -> exists l, v = JArr l.
+Proof.
+  destruct ty as [[|t l]|]; simpl; try discriminate. intros H Hv.
+  unfold valid_type in Hv. simpl in Hv.
+  assert (Hall : forall t', In t' (t :: l) -> t' = TArray).
+  { intros t' Hin. apply andb_true_iff in H. destruct H as [H1 H2]. destruct Hin as [<-|Hin].
+    - symmetry. apply itype_eqb_true. exact H1.
+    - rewrite forallb_forall in H2. symmetry. apply itype_eqb_true. apply H2. exact Hin. }
+  change (existsb (fun t0 => type_ok (int_accepts_integral_float o) t0 v) (t :: l) = true) in Hv.
+  apply existsb_exists in Hv. destruct Hv as [t' [Hin Hok]].
+  rewrite (Hall _ Hin) in Hok. destruct v; simpl in Hok; try discriminate Hok. eauto.
+Qed.
+
+Lemma merge_ty_all_array ta tb t :
+  merge_ty ta tb = Some t -> all_array ta = true \/ all_array tb = true -> all_array t = true.
+Proof.
+  assert (K : forall la lb, all_array (Some la) = true \/ all_array (Some lb) = true ->
+              forall x r, filter (fun t0 => mem_ty t0 la && mem_ty t0 lb) all_itypes = x :: r ->
+              all_array (Some (x :: r)) = true).
+  { intros la lb H x r Ef.
+    assert (Hall : forall y, In y (x :: r) -> itype_eqb TArray y = true).
+    { intros y Hy. rewrite <- Ef in Hy. apply filter_In in Hy. destruct Hy as [_ Hy].
+      apply andb_true_iff in Hy. destruct Hy as [Ha Hb].
+      apply mem_ty_In in Ha. apply mem_ty_In in Hb.
+      destruct H as [H|H].
+      - destruct la as [|t0 l0]; [discriminate H|].
+        change (forallb (itype_eqb TArray) (t0 :: l0) = true) in H. rewrite forallb_forall in H. apply H. exact Ha.
+      - destruct lb as [|t0 l0]; [discriminate H|].
+        change (forallb (itype_eqb TArray) (t0 :: l0) = true) in H. rewrite forallb_forall in H. apply H. exact Hb. }
+    unfold all_array. apply forallb_forall. exact Hall. }
+  destruct ta as [la|], tb as [lb|]; unfold merge_ty; cbv zeta; intros E H.
+  - destruct (filter (fun t0 => mem_ty t0 la && mem_ty t0 lb) all_itypes) as [|x r] eqn:Ef; [discriminate E|].
+    inversion E; subst. eapply K; eauto.
+  - inversion E; subst. destruct H as [H|H]; [exact H | discriminate H].
+  - inversion E; subst. destruct H as [H|H]; [discriminate H | exact H].
+  - destruct H as [H|H]; discriminate H.
+Qed.
+
 Section ObjThmExact.
   Variable re_match : ustring -> ustring -> bool.
   Variable fmt_ok : ustring -> ustring -> bool.
   Variable o : vopts.
   Variable DV : defs.
   Variable n : nat.
+  Variable wa : bool.
   Variable tx : itype.
   Hypothesis Htx : tx_ok tx.
   Variable D : defs.
   Local Notation V := (Valid.validx re_match fmt_ok o DV n).
-  Local Notation exok := (ex_ok re_match fmt_ok o DV n tx).
+  Local Notation exok := (ex_ok re_match fmt_ok o DV n wa tx).
 
-  Lemma merge_frag_eq f ty enum cst nv sv items props req ap mnp mxp allo d t
-        ty' enum' cst' nv' sv' items' props' req' ap' mnp' mxp' allo' d' t' :
+  Lemma merge_frag_eq f ty enum cst nv sv ik items mni mxi uq props req ap mnp mxp allo d t
+        ty' enum' cst' nv' sv' ik' items' mni' mxi' uq' props' req' ap' mnp' mxp' allo' d' t' :
     merge D (S f)
-          (SObj ty None enum cst nv sv ItemsAbsent items None None None false props req ap mnp mxp allo
+          (SObj ty None enum cst nv sv ik items None mni mxi uq props req ap mnp mxp allo
                 None None None None d t)
-          (SObj ty' None enum' cst' nv' sv' ItemsAbsent items' None None None false props' req' ap' mnp' mxp' allo'
+          (SObj ty' None enum' cst' nv' sv' ik' items' None mni' mxi' uq' props' req' ap' mnp' mxp' allo'
                 None None None None d' t')
     = match merge_ty ty ty' with
       | None => MNever
       | Some tym =>
           mbind (merge_nv nv nv') (fun nvm =>
           mbind (merge_sv sv sv') (fun svm =>
+          mbind (merge_arr (merge D f) (ik, items, None, mni, mxi, uq) (ik', items', None, mni', mxi', uq')) (fun am =>
           mbind (merge_obj (merge D f) (props, req, ap, mnp, mxp) (props', req', ap', mnp', mxp')) (fun om =>
           mbind (merge_enum enum cst enum' cst') (fun em =>
+            let '(ikm, itm, aim, mnim, mxim, uqm) := am in
             let '(pm, rm, apm, mnpm, mxpm) := om in
             mbind (with_allof (merge D f)
-                     (SObj tym None em None nvm svm ItemsAbsent items' None None None false pm rm apm mnpm mxpm None
+                     (SObj tym None em None nvm svm ikm itm aim mnim mxim uqm pm rm apm mnpm mxpm None
                            None None None None None None) allo) (fun m1 =>
-            mbind (with_allof (merge D f) m1 allo') (fun m2 => MOk (enum_filter m2)))))))
+            mbind (with_allof (merge D f) m1 allo') (fun m2 => MOk (enum_filter m2))))))))
       end.
   Proof.
     match goal with
@@ -2236,10 +2429,8 @@ Section ObjThmExact.
     destruct (merge_ty ty ty'); [|reflexivity].
     destruct (merge_nv nv nv'); cbn [mbind]; try reflexivity.
     destruct (merge_sv sv sv'); cbn [mbind]; try reflexivity.
-    assert (Earr : merge_arr (merge D f) (ItemsAbsent, items, @None schema, @None N, @None N, false)
-                             (ItemsAbsent, items', @None schema, @None N, @None N, false)
-                   = MOk (ItemsAbsent, items', None, None, None, false)) by reflexivity.
-    rewrite Earr. cbn [mbind].
+    destruct (merge_arr (merge D f) (ik, items, None, mni, mxi, uq) (ik', items', None, mni', mxi', uq'))
+      as [[[[[[ikm itm] aim] mnim] mxim] uqm]| | |]; cbn [mbind]; try reflexivity.
     destruct (merge_obj (merge D f) (props, req, ap, mnp, mxp) (props', req', ap', mnp', mxp'))
       as [[[[[pm rm] apm] mnm] mxm]| | |]; cbn [mbind]; try reflexivity.
     destruct (merge_enum enum cst enum' cst') as [em| | |]; cbn [mbind]; try reflexivity.
@@ -2255,7 +2446,7 @@ Section ObjThmExact.
   Qed.
 
   Theorem merge_frag_exact : forall f a b,
-    obj_frag tx a = true -> obj_frag tx b = true -> exok (merge D f a b) a b.
+    obj_frag wa tx a = true -> obj_frag wa tx b = true -> exok (merge D f a b) a b.
   Proof.
     induction f as [|f IH]; intros a b Fa Fb; [exact I|].
     destruct a as [ba|ty fmt enum cst nv sv ik items ai mni mxi uq props req ap mnp mxp allo anyo oneo no ref d t].
@@ -2266,83 +2457,116 @@ Section ObjThmExact.
     destruct b as [[|]|ty' fmt' enum' cst' nv' sv' ik' items' ai' mni' mxi' uq' props' req' ap' mnp' mxp' allo' anyo' oneo' no' ref' d' t'].
     { split; [assumption | intros v _; rewrite valid_SBool, andb_true_r; reflexivity]. }
     { intros v _. rewrite valid_SBool. apply andb_false_r. }
-    pose proof (frag_shape tx _ _ _ _ _ _ _ _ _ _ _ _ _ _ _ _ _ _ _ _ _ _ _ _ Fa) as Sa.
-    pose proof (frag_shape tx _ _ _ _ _ _ _ _ _ _ _ _ _ _ _ _ _ _ _ _ _ _ _ _ Fb) as Sb.
-    destruct Sa as (-> & -> & -> & -> & -> & -> & -> & -> & -> & -> & -> & Nt & Se & Sc & Hn & Hs & Ga & Ua & Fp & Fap & Fal).
-    destruct Sb as (-> & -> & -> & -> & -> & -> & -> & -> & -> & -> & -> & Nt' & Se' & Sc' & Hn' & Hs' & Gb & Ub & Fp' & Fap' & Fal').
+    pose proof (frag_shape wa tx _ _ _ _ _ _ _ _ _ _ _ _ _ _ _ _ _ _ _ _ _ _ _ _ Fa) as Sa.
+    pose proof (frag_shape wa tx _ _ _ _ _ _ _ _ _ _ _ _ _ _ _ _ _ _ _ _ _ _ _ _ Fb) as Sb.
+    destruct Sa as (-> & -> & -> & -> & -> & -> & Nt & Se & Sc & Hn & Hs & Sh & Gaa & Fi & Ga & Ua & Fp & Fap & Fal).
+    destruct Sb as (-> & -> & -> & -> & -> & -> & Nt' & Se' & Sc' & Hn' & Hs' & Sh' & Gab & Fi' & Gb & Ub & Fp' & Fap' & Fal').
     rewrite merge_frag_eq. unfold ex_ok.
-    pose proof (merge_obj_exact re_match fmt_ok o DV n tx (merge D f) IH
+    pose proof (merge_obj_exact re_match fmt_ok o DV n wa tx (merge D f) IH
                                 props req ap mnp mxp props' req' ap' mnp' mxp' Fp Fp' Fap Fap' Ua Ub) as Hobj.
+    pose proof (merge_arr_exact re_match fmt_ok o DV n wa tx (merge D f) IH
+                                ik items mni mxi uq ik' items' mni' mxi' uq' Sh Sh' Fi Fi') as Harr.
     (* what the two bodies (without their allOf members) mean *)
-    set (A0 := fun v => valid_type o ty v && valid_enum enum v && valid_const cst v && valid_obj_local req mnp mxp v
+    set (A0 := fun v => valid_type o ty v && valid_enum enum v && valid_const cst v
+                        && valid_arr_local mni mxi uq v && valid_obj_local req mnp mxp v
+                        && match v with JArr l => valid_arr V ik items None l | _ => true end
                         && match v with JObj kvs => valid_obj V props ap kvs | _ => true end).
-    set (B0 := fun v => valid_type o ty' v && valid_enum enum' v && valid_const cst' v && valid_obj_local req' mnp' mxp' v
+    set (B0 := fun v => valid_type o ty' v && valid_enum enum' v && valid_const cst' v
+                        && valid_arr_local mni' mxi' uq' v && valid_obj_local req' mnp' mxp' v
+                        && match v with JArr l => valid_arr V ik' items' None l | _ => true end
                         && match v with JObj kvs => valid_obj V props' ap' kvs | _ => true end).
     set (LA := fun v => opt_all (forallb (fun s' => V s' v)) allo).
     set (LB := fun v => opt_all (forallb (fun s' => V s' v)) allo').
-    assert (EA : forall v, V (SObj ty None enum cst nv sv ItemsAbsent [] None None None false props req ap mnp mxp allo
+    assert (EA : forall v, V (SObj ty None enum cst nv sv ik items None mni mxi uq props req ap mnp mxp allo
                                     None None None None d t) v = A0 v && LA v).
     { intros v. rewrite V_frag by assumption. reflexivity. }
-    assert (EB : forall v, V (SObj ty' None enum' cst' nv' sv' ItemsAbsent [] None None None false props' req' ap' mnp' mxp' allo'
+    assert (EB : forall v, V (SObj ty' None enum' cst' nv' sv' ik' items' None mni' mxi' uq' props' req' ap' mnp' mxp' allo'
                                     None None None None d' t') v = B0 v && LB v).
     { intros v. rewrite V_frag by assumption. reflexivity. }
     pose proof (fun v => merge_ty_exact tx o ty ty' v Htx Nt Nt') as Hty.
     destruct (merge_ty ty ty') as [tym|] eqn:Et.
     - rewrite (merge_nv_none nv nv' Hn), (merge_sv_none sv sv' Hs). cbn [mbind].
-      destruct (merge_obj (merge D f) (props, req, ap, mnp, mxp) (props', req', ap', mnp', mxp'))
-        as [[[[[pm rm] apm] mnm] mxm]| | |]; cbn [mbind]; try exact I.
-      + destruct Hobj as (Fpm & Am & Upm & Habs & Hsem).
-        pose proof (fun v => merge_enum_exact enum cst enum' cst' v Se Sc Se' Sc') as Hen.
-        destruct (merge_enum enum cst enum' cst') as [em| | |] eqn:Ee; cbn [mbind]; try exact I.
-        * (* the merged body *)
-          set (body := SObj tym None em None nv' sv' ItemsAbsent [] None None None false pm rm apm mnm mxm None
-                            None None None None None None).
-          assert (Hbody : acc_ex re_match fmt_ok o DV n tx (MOk body) (fun v => A0 v && B0 v)).
-          { split.
-            - unfold body. cbn [obj_frag]. unfold arr_absent.
-              destruct (Hty JNull) as [Ntm _]. destruct (Hen JNull) as [Sem _].
-              rewrite Ntm, Sem, Hn', Hs', Upm, Fpm, Am. cbn [is_none negb andb opt_all].
-              assert (Hg : obj_absent pm rm apm mnm mxm || all_object tym = true).
-              { apply orb_true_iff in Ga. apply orb_true_iff in Gb. apply orb_true_iff.
-                destruct Ga as [Ga|Ga].
-                - destruct Gb as [Gb|Gb].
-                  + left. apply Habs; assumption.
-                  + right. eapply merge_ty_all_object; eauto.
-                - right. eapply merge_ty_all_object; eauto. }
-              rewrite Hg. reflexivity.
-            - intros v Wv. unfold body. rewrite V_frag by assumption.
-              destruct (Hty v) as [_ Tv]. destruct (Hen v) as [_ Ev].
-              unfold valid_const at 1. unfold valid_enum at 1. cbn [opt_all]. fold (enum_sem em v).
-              rewrite Tv, Ev. unfold A0, B0.
-              destruct v as [| | | | | |kvs]; try (simpl; btauto).
-              pose proof (Hsem kvs Wv) as Ho. unfold obool in Ho.
-              rewrite andb_true_r.
-              rewrite <- (andb_assoc _ (valid_obj_local rm mnm mxm (JObj kvs)) (valid_obj V pm apm kvs)).
-              rewrite Ho. btauto. }
-          pose proof (with_allof_exact re_match fmt_ok o DV n tx (merge D f) IH body allo _ Hbody Fal) as H1.
-          destruct (with_allof (merge D f) body allo) as [m1| | |]; cbn [mbind]; try exact I.
-          -- pose proof (with_allof_exact re_match fmt_ok o DV n tx (merge D f) IH m1 allo' _ H1 Fal') as H2.
-             destruct (with_allof (merge D f) m1 allo') as [m2| | |]; cbn [mbind]; try exact I.
-             ++ destruct H2 as [F2 S2]. split; [apply enum_filter_frag; exact F2|].
-                intros v Wv. rewrite (enum_filter_exact_V re_match fmt_ok o DV n tx m2 v F2), (S2 v Wv), EA, EB.
-                fold (LA v) (LB v).
-                destruct (A0 v), (B0 v), (LA v), (LB v); reflexivity.
-             ++ intros v Wv. rewrite EA, EB. specialize (H2 v Wv). cbv beta in H2.
-                fold (LA v) (LB v) in H2. destruct (A0 v), (B0 v), (LA v), (LB v); simpl in *; congruence.
-          -- intros v Wv. rewrite EA, EB. specialize (H1 v Wv). cbv beta in H1.
-             fold (LA v) in H1. destruct (A0 v), (B0 v), (LA v), (LB v); simpl in *; congruence.
-        * intros v Wv. rewrite EA, EB. specialize (Hen v). unfold A0, B0.
-          destruct (valid_enum enum v), (valid_const cst v), (valid_enum enum' v), (valid_const cst' v);
-            simpl in Hen; try discriminate Hen; rewrite ?andb_false_r; try reflexivity;
-            destruct (valid_type o ty v); simpl; rewrite ?andb_false_r; reflexivity.
-      + destruct Hobj as (Na_ & Nb_ & Hnev).
+      destruct (merge_arr (merge D f) (ik, items, None, mni, mxi, uq) (ik', items', None, mni', mxi', uq'))
+        as [[[[[[ikm itm] aim] mnim] mxim] uqm]| | |]; cbn [mbind]; try exact I.
+      + destruct Harr as (-> & Shm & Fim & Habsa & Hsema).
+        destruct (merge_obj (merge D f) (props, req, ap, mnp, mxp) (props', req', ap', mnp', mxp'))
+          as [[[[[pm rm] apm] mnm] mxm]| | |]; cbn [mbind]; try exact I.
+        * destruct Hobj as (Fpm & Am & Upm & Habs & Hsem).
+          pose proof (fun v => merge_enum_exact enum cst enum' cst' v Se Sc Se' Sc') as Hen.
+          destruct (merge_enum enum cst enum' cst') as [em| | |] eqn:Ee; cbn [mbind]; try exact I.
+          -- (* the merged body *)
+             set (body := SObj tym None em None nv' sv' ikm itm None mnim mxim uqm pm rm apm mnm mxm None
+                               None None None None None None).
+             assert (Hbody : acc_ex re_match fmt_ok o DV n wa tx (MOk body) (fun v => A0 v && B0 v)).
+             { split.
+               - unfold body. destruct (Hty JNull) as [Ntm _]. destruct (Hen JNull) as [Sem _].
+                 apply frag_build; try assumption; try reflexivity.
+                 + apply orb_true_iff in Gaa. apply orb_true_iff in Gab. apply orb_true_iff.
+                   destruct Gaa as [Gaa|Gaa].
+                   * destruct Gab as [Gab|Gab].
+                     -- left. apply Habsa; assumption.
+                     -- right. apply andb_true_iff in Gab. destruct Gab as [-> Gab]. simpl.
+                        eapply merge_ty_all_array; eauto.
+                   * right. apply andb_true_iff in Gaa. destruct Gaa as [-> Gaa]. simpl.
+                     eapply merge_ty_all_array; eauto.
+                 + apply orb_true_iff in Ga. apply orb_true_iff in Gb. apply orb_true_iff.
+                   destruct Ga as [Ga|Ga].
+                   * destruct Gb as [Gb|Gb].
+                     -- left. apply Habs; assumption.
+                     -- right. eapply merge_ty_all_object; eauto.
+                   * right. eapply merge_ty_all_object; eauto.
+               - intros v Wv. unfold body. rewrite V_frag by assumption.
+                 destruct (Hty v) as [_ Tv]. destruct (Hen v) as [_ Ev].
+                 unfold valid_const at 1. unfold valid_enum at 1. cbn [opt_all]. fold (enum_sem em v).
+                 rewrite Tv, Ev. unfold A0, B0.
+                 destruct v as [| | | | |l|kvs]; try (simpl; btauto).
+                 + pose proof (Hsema l Wv) as Ho. unfold abool in Ho.
+                   change (valid_obj_local rm mnm mxm (JArr l)) with true.
+                   change (valid_obj_local req mnp mxp (JArr l)) with true.
+                   change (valid_obj_local req' mnp' mxp' (JArr l)) with true.
+                   rewrite !andb_true_r.
+                   rewrite <- (andb_assoc _ (valid_arr_local mnim mxim uqm (JArr l)) (valid_arr V ikm itm None l)).
+                   rewrite Ho. btauto.
+                 + pose proof (Hsem kvs Wv) as Ho. unfold obool in Ho.
+                   change (valid_arr_local mnim mxim uqm (JObj kvs)) with true.
+                   change (valid_arr_local mni mxi uq (JObj kvs)) with true.
+                   change (valid_arr_local mni' mxi' uq' (JObj kvs)) with true.
+                   rewrite !andb_true_r.
+                   rewrite <- (andb_assoc _ (valid_obj_local rm mnm mxm (JObj kvs)) (valid_obj V pm apm kvs)).
+                   rewrite Ho. btauto. }
+             pose proof (with_allof_exact re_match fmt_ok o DV n wa tx (merge D f) IH body allo _ Hbody Fal) as H1.
+             destruct (with_allof (merge D f) body allo) as [m1| | |]; cbn [mbind]; try exact I.
+             ++ pose proof (with_allof_exact re_match fmt_ok o DV n wa tx (merge D f) IH m1 allo' _ H1 Fal') as H2.
+                destruct (with_allof (merge D f) m1 allo') as [m2| | |]; cbn [mbind]; try exact I.
+                ** destruct H2 as [F2 S2]. split; [apply enum_filter_frag; exact F2|].
+                   intros v Wv. rewrite (enum_filter_exact_V re_match fmt_ok o DV n wa tx m2 v F2), (S2 v Wv), EA, EB.
+                   fold (LA v) (LB v).
+                   destruct (A0 v), (B0 v), (LA v), (LB v); reflexivity.
+                ** intros v Wv. rewrite EA, EB. specialize (H2 v Wv). cbv beta in H2.
+                   fold (LA v) (LB v) in H2. destruct (A0 v), (B0 v), (LA v), (LB v); simpl in *; congruence.
+             ++ intros v Wv. rewrite EA, EB. specialize (H1 v Wv). cbv beta in H1.
+                fold (LA v) in H1. destruct (A0 v), (B0 v), (LA v), (LB v); simpl in *; congruence.
+          -- intros v Wv. rewrite EA, EB. specialize (Hen v). unfold A0, B0.
+             destruct (valid_enum enum v), (valid_const cst v), (valid_enum enum' v), (valid_const cst' v);
+               simpl in Hen; try discriminate Hen; rewrite ?andb_false_r; try reflexivity;
+               destruct (valid_type o ty v); simpl; rewrite ?andb_false_r; reflexivity.
+        * destruct Hobj as (Na_ & Nb_ & Hnev).
+          intros v Wv. rewrite EA, EB.
+          rewrite Na_ in Ga. simpl in Ga.
+          destruct (valid_type o ty v) eqn:Tv; [|unfold A0; rewrite Tv; reflexivity].
+          destruct (all_object_obj o ty v Ga Tv) as [kvs ->].
+          specialize (Hnev kvs Wv). unfold obool in Hnev. unfold A0, B0.
+          destruct (valid_obj_local req mnp mxp (JObj kvs)), (valid_obj V props ap kvs),
+            (valid_obj_local req' mnp' mxp' (JObj kvs)), (valid_obj V props' ap' kvs);
+            simpl in Hnev; try discriminate Hnev; rewrite ?andb_false_r; simpl; rewrite ?andb_false_r; reflexivity.
+      + destruct Harr as (Na_ & Nb_ & Hnev).
         intros v Wv. rewrite EA, EB.
-        rewrite Na_ in Ga. simpl in Ga.
+        rewrite Na_ in Gaa. simpl in Gaa. apply andb_true_iff in Gaa. destruct Gaa as [_ Gaa].
         destruct (valid_type o ty v) eqn:Tv; [|unfold A0; rewrite Tv; reflexivity].
-        destruct (all_object_obj o ty v Ga Tv) as [kvs ->].
-        specialize (Hnev kvs Wv). unfold obool in Hnev. unfold A0, B0.
-        destruct (valid_obj_local req mnp mxp (JObj kvs)), (valid_obj V props ap kvs),
-          (valid_obj_local req' mnp' mxp' (JObj kvs)), (valid_obj V props' ap' kvs);
+        destruct (all_array_arr o ty v Gaa Tv) as [l ->].
+        specialize (Hnev l Wv). unfold abool in Hnev. unfold A0, B0.
+        destruct (valid_arr_local mni mxi uq (JArr l)), (valid_arr V ik items None l),
+          (valid_arr_local mni' mxi' uq' (JArr l)), (valid_arr V ik' items' None l);
           simpl in Hnev; try discriminate Hnev; rewrite ?andb_false_r; simpl; rewrite ?andb_false_r; reflexivity.
     - intros v Wv. rewrite EA, EB. specialize (Hty v). unfold A0, B0.
       destruct (valid_type o ty v), (valid_type o ty' v); simpl in Hty; try discriminate Hty;
@@ -2352,24 +2576,28 @@ End ObjThmExact.
 
 
 (* ---- the fragment has no `$ref`: validity does not depend on the definitions nor on the fuel *)
-Lemma obj_frag_ref_free tx : forall s, obj_frag tx s = true -> ref_free s = true.
+Lemma obj_frag_ref_free wa tx : forall s, obj_frag wa tx s = true -> ref_free s = true.
 Proof.
   induction s as [b|ty fmt enum cst nv sv ik items ai mni mxi uq props req ap mnp mxp allo anyo oneo no ref d t
                     IHi IHai IHp IHap IHal IHan IHon IHno] using schema_ind'; [reflexivity|].
-  intros H. cbn [obj_frag] in H. unfold arr_absent in H.
+  intros H. cbn [obj_frag] in H. unfold arr_cond in H.
   repeat match goal with
          | Hx : _ && _ = true |- _ => apply andb_true_iff in Hx; destruct Hx
          end.
-  destruct items; [|simpl in *; congruence].
   destruct ai; [simpl in *; congruence|].
   destruct anyo; [simpl in *; congruence|].
   destruct oneo; [simpl in *; congruence|].
   destruct no; [simpl in *; congruence|].
   destruct ref; [simpl in *; congruence|].
-  cbn [ref_free forallb opt_all andb].
+  cbn [ref_free opt_all andb].
+  assert (Hi : forallb ref_free items = true).
+  { apply forallb_forall. intros x Hin. rewrite Forall_forall in IHi. apply (IHi x Hin).
+    match goal with Hf : forallb (obj_frag wa tx) items = true |- _ =>
+      rewrite forallb_forall in Hf; apply Hf; exact Hin end. }
+  rewrite Hi.
   assert (Hp : forallb (fun kv => ref_free (snd kv)) props = true).
   { apply forallb_forall. intros kv Hin. rewrite Forall_forall in IHp. apply (IHp kv Hin).
-    match goal with Hf : forallb (fun kv => obj_frag tx (snd kv)) props = true |- _ =>
+    match goal with Hf : forallb (fun kv => obj_frag wa tx (snd kv)) props = true |- _ =>
       rewrite forallb_forall in Hf; apply Hf; exact Hin end. }
   rewrite Hp.
   assert (Hap : opt_all ref_free ap = true).
@@ -2378,7 +2606,7 @@ Proof.
   assert (Hal : opt_all (forallb ref_free) allo = true).
   { destruct allo as [l|]; [|reflexivity]. simpl in *. apply forallb_forall. intros x Hin.
     rewrite Forall_forall in IHal. apply (IHal x Hin).
-    match goal with Hf : forallb (obj_frag tx) l = true |- _ =>
+    match goal with Hf : forallb (obj_frag wa tx) l = true |- _ =>
       rewrite forallb_forall in Hf; apply Hf; exact Hin end. }
   rewrite Hal. reflexivity.
 Qed.
@@ -2389,16 +2617,17 @@ Section ObjAllExact.
   Variable o : vopts.
   Variable DV : defs.
   Variable n : nat.
+  Variable wa : bool.
   Variable tx : itype.
   Hypothesis Htx : tx_ok tx.
   Variable D : defs.
   Variable f : nat.
   Local Notation V := (Valid.validx re_match fmt_ok o DV n).
-  Local Notation accex := (acc_ex re_match fmt_ok o DV n tx).
+  Local Notation accex := (acc_ex re_match fmt_ok o DV n wa tx).
 
   (* merge_all is exact: Ok m => the instances of m are exactly those of all members; never => there is none *)
   Theorem merge_all_frag_exact L :
-    L <> [] -> forallb (obj_frag tx) L = true ->
+    L <> [] -> forallb (obj_frag wa tx) L = true ->
     accex (merge_all D f L) (fun v => forallb (fun s => V s v) L).
   Proof.
     intros Hne HF. destruct L as [|a [|b rest]]; [congruence| |].
@@ -2406,11 +2635,11 @@ Section ObjAllExact.
       intros v _. simpl. rewrite andb_true_r. reflexivity.
     - cbn [merge_all]. simpl in HF. apply andb_true_iff in HF. destruct HF as [Ha HF].
       apply andb_true_iff in HF. destruct HF as [Hb HF].
-      pose proof (merge_frag_exact re_match fmt_ok o DV n tx Htx D f a b Ha Hb) as H0.
+      pose proof (merge_frag_exact re_match fmt_ok o DV n wa tx Htx D f a b Ha Hb) as H0.
       assert (Hacc : accex (merge D f a b) (fun v => V a v && V b v)).
       { unfold ex_ok in H0. unfold acc_ex. destruct (merge D f a b); try exact I; exact H0. }
-      pose proof (fold_exact re_match fmt_ok o DV n tx (merge D f)
-                             (merge_frag_exact re_match fmt_ok o DV n tx Htx D f) rest _ _ Hacc HF) as H.
+      pose proof (fold_exact re_match fmt_ok o DV n wa tx (merge D f)
+                             (merge_frag_exact re_match fmt_ok o DV n wa tx Htx D f) rest _ _ Hacc HF) as H.
       destruct (fold_left (fun acc s => mbind acc (fun o0 => merge D f o0 s)) rest (merge D f a b));
         unfold acc_ex in *; try exact I.
       + destruct H as [H1 H2]. split; [exact H1|]. intros v Wv. rewrite (H2 v Wv). simpl.
@@ -2425,7 +2654,7 @@ Section ObjAllExact.
     match r with MOk _ | MNever => true | _ => false end.
 
   Lemma merge_all_inst L v :
-    L <> [] -> forallb (obj_frag tx) L = true -> defined (merge_all D f L) = true -> wf_json v = true ->
+    L <> [] -> forallb (obj_frag wa tx) L = true -> defined (merge_all D f L) = true -> inst_ok wa v = true ->
     inst_set (merge_all D f L) v = forallb (fun s => V s v) L.
   Proof.
     intros Hne HF Hd Wv. pose proof (merge_all_frag_exact L Hne HF) as H.
@@ -2437,12 +2666,12 @@ Section ObjAllExact.
   (* order independence at full strength on the fragment: every permutation of the list merges to the same
      instance set (semantic equality; the schemas themselves may differ) *)
   Theorem merge_all_perm_equiv_frag L L' v :
-    Permutation L L' -> forallb (obj_frag tx) L = true ->
-    defined (merge_all D f L) = true -> defined (merge_all D f L') = true -> wf_json v = true ->
+    Permutation L L' -> forallb (obj_frag wa tx) L = true ->
+    defined (merge_all D f L) = true -> defined (merge_all D f L') = true -> inst_ok wa v = true ->
     inst_set (merge_all D f L) v = inst_set (merge_all D f L') v.
   Proof.
     intros HP HF D1 D2 Wv.
-    assert (HF' : forallb (obj_frag tx) L' = true) by (rewrite <- (forallb_perm _ _ _ HP); exact HF).
+    assert (HF' : forallb (obj_frag wa tx) L' = true) by (rewrite <- (forallb_perm _ _ _ HP); exact HF).
     destruct L as [|a L0].
     - apply Permutation_nil in HP. subst L'. reflexivity.
     - assert (Hne' : L' <> []).
@@ -2457,6 +2686,7 @@ Section ObjValid.
   Variable re_match : ustring -> ustring -> bool.
   Variable fmt_ok : ustring -> ustring -> bool.
   Variable DV : defs.
+  Variable wa : bool.
   Variable tx : itype.
   Hypothesis Htx : tx_ok tx.
   Variable D : defs.
@@ -2474,48 +2704,92 @@ Section ObjValid.
   Qed.
 
   Theorem merge_frag_exact_Valid f a b m v :
-    obj_frag tx a = true -> obj_frag tx b = true -> merge D f a b = MOk m -> wf_json v = true ->
+    obj_frag wa tx a = true -> obj_frag wa tx b = true -> merge D f a b = MOk m -> inst_ok wa v = true ->
     (Valid m v <-> Valid a v /\ Valid b v).
   Proof.
     intros Fa Fb E Wv.
-    pose proof (merge_frag_exact re_match fmt_ok draft07 DV 0 tx Htx D f a b Fa Fb) as H.
+    pose proof (merge_frag_exact re_match fmt_ok draft07 DV 0 wa tx Htx D f a b Fa Fb) as H.
     rewrite E in H. destruct H as [Fm Hm].
-    rewrite (Valid_ref_free m v (obj_frag_ref_free tx m Fm)),
-            (Valid_ref_free a v (obj_frag_ref_free tx a Fa)),
-            (Valid_ref_free b v (obj_frag_ref_free tx b Fb)).
+    rewrite (Valid_ref_free m v (obj_frag_ref_free wa tx m Fm)),
+            (Valid_ref_free a v (obj_frag_ref_free wa tx a Fa)),
+            (Valid_ref_free b v (obj_frag_ref_free wa tx b Fb)).
     rewrite (Hm v Wv), andb_true_iff. tauto.
   Qed.
 
   Theorem merge_frag_never_Valid f a b v :
-    obj_frag tx a = true -> obj_frag tx b = true -> merge D f a b = MNever -> wf_json v = true ->
+    obj_frag wa tx a = true -> obj_frag wa tx b = true -> merge D f a b = MNever -> inst_ok wa v = true ->
     ~ (Valid a v /\ Valid b v).
   Proof.
     intros Fa Fb E Wv.
-    pose proof (merge_frag_exact re_match fmt_ok draft07 DV 0 tx Htx D f a b Fa Fb) as H.
+    pose proof (merge_frag_exact re_match fmt_ok draft07 DV 0 wa tx Htx D f a b Fa Fb) as H.
     rewrite E in H. specialize (H v Wv).
-    rewrite (Valid_ref_free a v (obj_frag_ref_free tx a Fa)), (Valid_ref_free b v (obj_frag_ref_free tx b Fb)).
+    rewrite (Valid_ref_free a v (obj_frag_ref_free wa tx a Fa)), (Valid_ref_free b v (obj_frag_ref_free wa tx b Fb)).
     intros [H1 H2]. rewrite H1, H2 in H. discriminate H.
   Qed.
 End ObjValid.
 
 (* ---- statements in the form used by Props/C09.v *)
-Theorem merge_sound_obj re_match fmt_ok o DV n tx D f a b m :
-  tx_ok tx -> obj_frag tx a = true -> obj_frag tx b = true -> merge D f a b = MOk m ->
-  obj_frag tx m = true /\
-  forall v, wf_json v = true ->
+Lemma inst_ok_false v : wf_json v = true -> inst_ok false v = true.
+Proof. unfold inst_ok. intros ->. reflexivity. Qed.
+
+Lemma inst_ok_true v : wf_json v = true -> no_empty_arr v = true -> inst_ok true v = true.
+Proof. unfold inst_ok. intros -> ->. reflexivity. Qed.
+
+Theorem merge_sound_frag re_match fmt_ok o DV n wa tx D f a b m :
+  tx_ok tx -> obj_frag wa tx a = true -> obj_frag wa tx b = true -> merge D f a b = MOk m ->
+  obj_frag wa tx m = true /\
+  forall v, inst_ok wa v = true ->
             validx re_match fmt_ok o DV n m v = validx re_match fmt_ok o DV n a v && validx re_match fmt_ok o DV n b v.
 Proof.
-  intros Htx Fa Fb E. pose proof (merge_frag_exact re_match fmt_ok o DV n tx Htx D f a b Fa Fb) as H.
+  intros Htx Fa Fb E. pose proof (merge_frag_exact re_match fmt_ok o DV n wa tx Htx D f a b Fa Fb) as H.
   rewrite E in H. exact H.
 Qed.
 
+Theorem merge_never_frag re_match fmt_ok o DV n wa tx D f a b :
+  tx_ok tx -> obj_frag wa tx a = true -> obj_frag wa tx b = true -> merge D f a b = MNever ->
+  forall v, inst_ok wa v = true ->
+            validx re_match fmt_ok o DV n a v && validx re_match fmt_ok o DV n b v = false.
+Proof.
+  intros Htx Fa Fb E. pose proof (merge_frag_exact re_match fmt_ok o DV n wa tx Htx D f a b Fa Fb) as H.
+  rewrite E in H. exact H.
+Qed.
+
+Theorem merge_sound_obj re_match fmt_ok o DV n tx D f a b m :
+  tx_ok tx -> obj_frag false tx a = true -> obj_frag false tx b = true -> merge D f a b = MOk m ->
+  obj_frag false tx m = true /\
+  forall v, wf_json v = true ->
+            validx re_match fmt_ok o DV n m v = validx re_match fmt_ok o DV n a v && validx re_match fmt_ok o DV n b v.
+Proof.
+  intros Htx Fa Fb E. destruct (merge_sound_frag re_match fmt_ok o DV n false tx D f a b m Htx Fa Fb E) as [H1 H2].
+  split; [exact H1|]. intros v Wv. apply H2. apply inst_ok_false. exact Wv.
+Qed.
+
 Theorem merge_never_obj re_match fmt_ok o DV n tx D f a b :
-  tx_ok tx -> obj_frag tx a = true -> obj_frag tx b = true -> merge D f a b = MNever ->
+  tx_ok tx -> obj_frag false tx a = true -> obj_frag false tx b = true -> merge D f a b = MNever ->
   forall v, wf_json v = true ->
             validx re_match fmt_ok o DV n a v && validx re_match fmt_ok o DV n b v = false.
 Proof.
-  intros Htx Fa Fb E. pose proof (merge_frag_exact re_match fmt_ok o DV n tx Htx D f a b Fa Fb) as H.
-  rewrite E in H. exact H.
+  intros Htx Fa Fb E v Wv. apply (merge_never_frag re_match fmt_ok o DV n false tx D f a b Htx Fa Fb E).
+  apply inst_ok_false. exact Wv.
+Qed.
+
+Theorem merge_sound_arr re_match fmt_ok o DV n tx D f a b m :
+  tx_ok tx -> obj_frag true tx a = true -> obj_frag true tx b = true -> merge D f a b = MOk m ->
+  obj_frag true tx m = true /\
+  forall v, wf_json v = true -> no_empty_arr v = true ->
+            validx re_match fmt_ok o DV n m v = validx re_match fmt_ok o DV n a v && validx re_match fmt_ok o DV n b v.
+Proof.
+  intros Htx Fa Fb E. destruct (merge_sound_frag re_match fmt_ok o DV n true tx D f a b m Htx Fa Fb E) as [H1 H2].
+  split; [exact H1|]. intros v Wv Nv. apply H2. apply inst_ok_true; assumption.
+Qed.
+
+Theorem merge_never_arr re_match fmt_ok o DV n tx D f a b :
+  tx_ok tx -> obj_frag true tx a = true -> obj_frag true tx b = true -> merge D f a b = MNever ->
+  forall v, wf_json v = true -> no_empty_arr v = true ->
+            validx re_match fmt_ok o DV n a v && validx re_match fmt_ok o DV n b v = false.
+Proof.
+  intros Htx Fa Fb E v Wv Nv. apply (merge_never_frag re_match fmt_ok o DV n true tx D f a b Htx Fa Fb E).
+  apply inst_ok_true; assumption.
 Qed.
 
 (* non-vacuity: nested objects, required, a closed member, an additionalProperties schema, an allOf member *)
@@ -2539,8 +2813,8 @@ Definition ex_v_bad2 : json :=   (* b must be an integer both as b's property an
   JObj [([97%N], JStr [104%N]); ([98%N], JStr []); ([110%N], JObj [([120%N], JInt 1)])].
 
 Lemma obj_exact_example :
-  obj_frag TNumber ex_a = true /\ obj_frag TNumber ex_b = true /\
-  exists m, merge [] 6 ex_a ex_b = MOk m /\ obj_frag TNumber m = true
+  obj_frag false TNumber ex_a = true /\ obj_frag false TNumber ex_b = true /\
+  exists m, merge [] 6 ex_a ex_b = MOk m /\ obj_frag false TNumber m = true
             /\ Vd [] 0 m ex_v_ok = true /\ Vd [] 0 ex_a ex_v_ok = true /\ Vd [] 0 ex_b ex_v_ok = true
             /\ Vd [] 0 m ex_v_bad1 = false /\ Vd [] 0 ex_b ex_v_bad1 = false
             /\ Vd [] 0 m ex_v_bad2 = false /\ Vd [] 0 ex_b ex_v_bad2 = false
@@ -2548,7 +2822,7 @@ Lemma obj_exact_example :
 Proof. split; [reflexivity|]. split; [reflexivity|]. eexists. vm_compute. repeat split. Qed.
 
 Lemma obj_never_example :
-  obj_frag TNumber ex_a = true /\ obj_frag TNumber ex_closed = true /\ merge [] 6 ex_a ex_closed = MNever.
+  obj_frag false TNumber ex_a = true /\ obj_frag false TNumber ex_closed = true /\ merge [] 6 ex_a ex_closed = MNever.
 Proof. vm_compute. repeat split. Qed.
 
 Lemma obj_perm_example :
@@ -2557,3 +2831,33 @@ Lemma obj_perm_example :
                /\ Vd [] 0 m ex_v_ok = true /\ Vd [] 0 m' ex_v_ok = true
                /\ Vd [] 0 m ex_v_bad1 = false /\ Vd [] 0 m' ex_v_bad1 = false.
 Proof. eexists. eexists. vm_compute. repeat split. Qed.
+
+(* arrays: an object with an array-valued member whose items are narrowed, length bounds, uniqueItems *)
+Definition arr_s (it : option schema) (mn mx : option N) (uq : bool) : schema :=
+  SObj (Some [TArray]) None None None numv_none strv_none
+       (match it with Some _ => ItemsSingle | None => ItemsAbsent end)
+       (match it with Some s => [s] | None => [] end) None mn mx uq
+       [] [] None None None None None None None None None None.
+Definition exa_a : schema :=
+  obj_of [([116%N], arr_s (Some (ty_only [TString])) None (Some 3%N) false)] [[116%N]] None.
+Definition exa_b : schema :=
+  obj_of [([116%N], arr_s (Some (str_enum [JStr [97%N]; JStr [98%N]])) (Some 1%N) None true)] [] None.
+Definition exa_c : schema := obj_of [([116%N], arr_s (Some (ty_only [TInteger])) None None false)] [] None.
+Definition exa_v_ok : json := JObj [([116%N], JArr [JStr [97%N]; JStr [98%N]])].
+Definition exa_v_dup : json := JObj [([116%N], JArr [JStr [97%N]; JStr [97%N]])].
+Definition exa_v_long : json := JObj [([116%N], JArr [JStr [97%N]; JStr [98%N]; JStr [97%N]; JStr [98%N]])].
+
+Lemma arr_exact_example :
+  obj_frag true TNumber exa_a = true /\ obj_frag true TNumber exa_b = true /\
+  exists m, merge [] 6 exa_a exa_b = MOk m /\ obj_frag true TNumber m = true
+            /\ Vd [] 0 m exa_v_ok = true /\ Vd [] 0 m exa_v_dup = false /\ Vd [] 0 exa_b exa_v_dup = false
+            /\ Vd [] 0 m exa_v_long = false /\ Vd [] 0 exa_a exa_v_long = false
+            /\ inst_ok true exa_v_ok = true.
+Proof. split; [reflexivity|]. split; [reflexivity|]. eexists. vm_compute. repeat split. Qed.
+
+(* required member with conflicting item schemas: never; the exclusion [no_empty_arr] is what finding F5 is about *)
+Lemma arr_never_example :
+  obj_frag true TNumber exa_a = true /\ obj_frag true TNumber exa_c = true /\ merge [] 6 exa_a exa_c = MNever
+  /\ Vd [] 0 exa_a (JObj [([116%N], JArr [])]) = true /\ Vd [] 0 exa_c (JObj [([116%N], JArr [])]) = true
+  /\ no_empty_arr (JObj [([116%N], JArr [])]) = false.
+Proof. vm_compute. repeat split. Qed.
